@@ -125,12 +125,31 @@ impl RoaringBitmap {
         };
         let before = self.len();
         if lo < hi {
-            // only the full range stays inside the family
-            vnd::model_bound(lo == 0 && hi == 1 << 32);
-            *self = Self::full();
+            // the range stays inside the family iff it is a set of universe points (finite) or misses
+            // only universe points (co-finite); the universe is symbolic, so e.g. `0..u32::MAX` is
+            // covered by the universes that contain u32::MAX
+            let u = verif_universe();
+            let mut inside: u8 = 0;
+            let mut i = 0;
+            while i < NP {
+                if (u[i] as u64) >= lo && (u[i] as u64) < hi {
+                    inside |= 1 << i;
+                }
+                i += 1;
+            }
+            let size = hi - lo;
+            let n_in = inside.count_ones() as u64;
+            let n_out = NP as u64 - n_in;
+            if size == n_in {
+                *self = or(*self, Self { bits: inside, co: false });
+            } else {
+                vnd::model_bound((1u64 << 32) - size == n_out);
+                *self = or(*self, Self { bits: inside, co: true });
+            }
         }
         self.len() - before
     }
+
     pub fn is_empty(&self) -> bool {
         !self.co && self.bits == 0
     }
